@@ -8,7 +8,7 @@
 //!   length-field edits located through header/TOC/track headers, hash-consistent TOC edits, truncation at
 //!   every region boundary, splices of two files, random / all-0xFF / all-zero files); each API
 //!   (open + every read API, open_read_only + reads, verify(deep), doctor_plan, doctor) runs in a CHILD
-//!   PROCESS (this binary re-executed) with a 20 s limit per call; outcome classes ok | error | panic |
+//!   PROCESS (this binary re-executed) with a limit of 20 s CPU time (240 s wall) per call; outcome classes ok | error | panic |
 //!   abort | timeout.  For every mutated file the header / read_toc / WAL decoders are ALSO called
 //!   in-process and compared with the model.
 //! Oracle: panic / abort / timeout anywhere = violation (unless a listed known finding that the model predicts).
@@ -32,7 +32,10 @@ use std::sync::{Arc, Mutex};
 use std::time::{Duration, Instant};
 
 const HEADER_SIZE: usize = 4096;
+/// per call: 20 s of CPU time of the child process (a busy hang), 240 s of wall time (a blocked call); the
+/// machine running the check may be oversubscribed many times over, so wall time alone cannot tell a hang from a queue
 const API_LIMIT_MS: u64 = 20_000;
+const API_WALL_LIMIT_MS: u64 = 240_000;
 const GROUPS: &[&str] = &["open", "ro", "verify", "plan", "doctor"];
 
 // =======================================================================================
@@ -40,6 +43,13 @@ const GROUPS: &[&str] = &["open", "ro", "verify", "plan", "doctor"];
 static PANIC_INFO: Mutex<Option<String>> = Mutex::new(None);
 static CUR_API: Mutex<String> = Mutex::new(String::new());
 static CUR_START: AtomicU64 = AtomicU64::new(0);
+static CUR_CPU_START: AtomicU64 = AtomicU64::new(0);
+
+fn cpu_ms() -> u64 {
+    let mut ts = libc::timespec { tv_sec: 0, tv_nsec: 0 };
+    unsafe { libc::clock_gettime(libc::CLOCK_PROCESS_CPUTIME_ID, &mut ts) };
+    ts.tv_sec as u64 * 1000 + ts.tv_nsec as u64 / 1_000_000
+}
 
 fn now_ms() -> u64 {
     std::time::SystemTime::now().duration_since(std::time::UNIX_EPOCH).map(|d| d.as_millis() as u64).unwrap_or(1)
@@ -74,7 +84,7 @@ fn install_child_runtime() {
     std::thread::spawn(|| loop {
         std::thread::sleep(Duration::from_millis(50));
         let st = CUR_START.load(Ordering::SeqCst);
-        if st != 0 && now_ms().saturating_sub(st) > API_LIMIT_MS {
+        if st != 0 && (cpu_ms().saturating_sub(CUR_CPU_START.load(Ordering::SeqCst)) > API_LIMIT_MS || now_ms().saturating_sub(st) > API_WALL_LIMIT_MS) {
             let name = CUR_API.lock().map(|g| g.clone()).unwrap_or_default();
             say(&format!("END {name} timeout -"));
             unsafe { libc::_exit(0) };
@@ -87,6 +97,7 @@ fn api<F: FnOnce() -> Result<String, String>>(name: &str, f: F) -> bool {
     if let Ok(mut g) = CUR_API.lock() { *g = name.to_string(); }
     if let Ok(mut g) = PANIC_INFO.lock() { *g = None; }
     say(&format!("BEGIN {name}"));
+    CUR_CPU_START.store(cpu_ms(), Ordering::SeqCst);
     CUR_START.store(now_ms(), Ordering::SeqCst);
     let r = std::panic::catch_unwind(std::panic::AssertUnwindSafe(f));
     CUR_START.store(0, Ordering::SeqCst);
@@ -550,7 +561,7 @@ fn gen_toc_edit(rng: &mut Rng, lay: &Layout, orig: &[u8]) -> Option<(Vec<Op>, St
     toc_ops(lay, orig, toc).map(|o| (o, label))
 }
 
-fn plan_files(rng: &mut Rng, seeds: &BTreeMap<String, Vec<u8>>, lays: &BTreeMap<String, Layout>, n: usize) -> Vec<FileCase> {
+fn plan_files(rng: &mut Rng, seeds: &BTreeMap<String, Vec<u8>>, lays: &BTreeMap<String, Layout>, n: usize, thorough: bool) -> Vec<FileCase> {
     let mut v: Vec<FileCase> = Vec::new();
     // fixed corpus: the unmutated seeds, degenerate files
     for s in seeds.keys() { v.push(FileCase { base: s.clone(), ops: vec![], label: "seed".into() }); }
@@ -571,10 +582,10 @@ fn plan_files(rng: &mut Rng, seeds: &BTreeMap<String, Vec<u8>>, lays: &BTreeMap<
         let mut bounds: Vec<usize> = lay.fields.iter().map(|f| f.start).collect();
         bounds.sort(); bounds.dedup();
         for (i, b) in bounds.iter().enumerate() {
-            if s != "rich" && i % 8 != 0 { continue; }
-            v.push(FileCase { base: s.clone(), ops: vec![Op::Trunc(*b)], label: "trunc".into() });
-            if i % 4 == 0 && *b > 0 { v.push(FileCase { base: s.clone(), ops: vec![Op::Trunc(*b - 1)], label: "trunc-1".into() }); }
-            if i % 6 == 0 { v.push(FileCase { base: s.clone(), ops: vec![Op::Trunc(*b + 1)], label: "trunc+1".into() }); }
+            let (every, minus, plus) = if thorough { (1, 1, 1) } else if s == "rich" { (3, 9, 12) } else { (12, 24, 36) };
+            if i % every == 0 { v.push(FileCase { base: s.clone(), ops: vec![Op::Trunc(*b)], label: "trunc".into() }); }
+            if i % minus == 0 && *b > 0 { v.push(FileCase { base: s.clone(), ops: vec![Op::Trunc(*b - 1)], label: "trunc-1".into() }); }
+            if i % plus == 0 { v.push(FileCase { base: s.clone(), ops: vec![Op::Trunc(*b + 1)], label: "trunc+1".into() }); }
         }
     }
     let fixed = v.len();
@@ -877,7 +888,7 @@ fn run_file(file: &Path, tmp: &Path) -> Vec<ApiOutcome> {
     let mut todo: Vec<&str> = GROUPS.to_vec();
     while !todo.is_empty() {
         let args = vec!["child".to_string(), file.display().to_string(), todo.join(",")];
-        let (lines, status) = spawn_child(&args, tmp, Duration::from_millis(API_LIMIT_MS * 12 + 30_000));
+        let (lines, status) = spawn_child(&args, tmp, Duration::from_millis(API_WALL_LIMIT_MS * 14));
         let (res, done) = parse_child(&lines, &status);
         let last_group = res.last().map(|o| o.api.split('.').next().unwrap_or("").to_string());
         all.extend(res);
@@ -894,7 +905,7 @@ fn run_file(file: &Path, tmp: &Path) -> Vec<ApiOutcome> {
 fn run_dec_child(dec: &str, a: &[String], tmp: &Path) -> String {
     let mut args = vec!["child-dec".to_string(), dec.to_string()];
     args.extend(a.iter().cloned());
-    let (lines, status) = spawn_child(&args, tmp, Duration::from_millis(API_LIMIT_MS + 10_000));
+    let (lines, status) = spawn_child(&args, tmp, Duration::from_millis(API_WALL_LIMIT_MS + 20_000));
     let (res, _) = parse_child(&lines, &status);
     let _ = std::fs::remove_dir_all(tmp);
     match res.first() {
@@ -1470,7 +1481,7 @@ fn file_decoder_checks(cx: &mut Cx, bytes: &[u8], label: &str) {
         }
     }
     // track readers behind a TOC that decodes
-    if hdr.footer_offset as usize + FOOTER_SIZE <= bytes.len() {
+    if hdr.footer_offset.saturating_add(FOOTER_SIZE as u64) <= len {
         if let Ok(toc) = Toc::decode(&bytes[hdr.footer_offset as usize..bytes.len() - FOOTER_SIZE]) {
             if let Some(m) = &toc.sketch_track {
                 if m.bytes_offset <= len && len - m.bytes_offset <= 8000 {
@@ -1509,7 +1520,7 @@ fn judge_file(cx: &mut Cx, fc: &FileCase, outcomes: &[ApiOutcome]) {
             else { cx.sum.oracle_violation(&sig, &what, case.clone()); }
         }
     }
-    let lab = fc.label.split(':').next().unwrap_or("").to_string();
+    let lab = if fc.label.starts_with("toc.") { "tocedit".to_string() } else { fc.label.split(':').next().unwrap_or("").to_string() };
     cx.sum.branch(&format!("mut.{lab}"));
     let opened = outcomes.iter().any(|o| (o.api == "open" || o.api == "ro") && o.class == "ok");
     if opened { cx.sum.branch("file-opens-after-mutation"); }
@@ -1537,7 +1548,7 @@ fn main() {
          Part B: seeds rich/small/empty/pending1/pending2 built through the API; mutations = bit flips in named fields, boundary values in length/offset \
          fields (header, WAL records, footer, track headers, TOC prefix), hash-consistent TOC edits, truncation at every field boundary (+-1), splices, \
          blanked fields, random / 0xFF / zero files; every file: open+reads, open_read_only+reads, verify(deep), doctor_plan, doctor in child processes \
-         (20 s per call) + header/read_toc/WAL/track decoders in-process vs model. non-trivial file = something beyond the header check ran; \
+         (20 s CPU / 240 s wall per call) + header/read_toc/WAL/track decoders in-process vs model. non-trivial file = something beyond the header check ran; \
          distinct = blake3(case)+outcome vector");
     let known: Vec<String> = args.extra.get("known").map(|k| k.split(',').filter(|x| !x.is_empty() && *x != "-").map(|x| x.to_string()).collect()).unwrap_or_default();
     let dir = tempfile::tempdir().expect("tempdir");
@@ -1626,7 +1637,7 @@ fn main() {
     }
     // ---------------------------------------------------------------- Part B
     let nfiles = args.extra.get("files").and_then(|s| s.parse().ok()).unwrap_or(if args.thorough { 4000 } else { 260 });
-    let plan = plan_files(&mut rng.fork(), &seeds, &lays, nfiles);
+    let plan = plan_files(&mut rng.fork(), &seeds, &lays, nfiles, args.thorough);
     let tb = Instant::now();
     let next = Arc::new(AtomicUsize::new(0));
     let results: Arc<Mutex<Vec<Option<Vec<ApiOutcome>>>>> = Arc::new(Mutex::new(vec![None; plan.len()]));
@@ -1661,7 +1672,7 @@ fn main() {
             plan.len(), GROUPS.len(), child_secs, jobs, tb.elapsed().as_secs_f64() - child_secs));
     }
     sum.expect_branches(&["api.open.ok", "api.open.error", "api.ro.ok", "api.ro.error", "api.verify.ok", "api.verify.error", "api.plan.ok", "api.doctor.ok",
-        "api.open.search.ok", "api.ro.timeline.ok", "api.open.blob.ok", "file-opens-after-mutation", "mut.flip", "mut.len", "mut.trunc", "mut.splice", "mut.random",
+        "api.open.search.ok", "api.ro.timeline.ok", "api.open.blob.ok", "file-opens-after-mutation", "mut.flip", "mut.len", "mut.trunc", "mut.splice", "mut.random", "mut.tocedit", "mut.track",
         "scan-candidate-reaches-decode", "dec.wal.ok-", "dec.wal.err-corrupt", "dec.wal.err-io", "dec.ti.ok-", "dec.sk.ok-small", "dec.readtoc.ok", "dec.readtoc.err-toc_hash_mismatch",
         "dec.frames.err-overlap", "dec.frames.err-overflow", "dec.bounds.ok", "dec.timeline.ok-", "dec.hdr.ok-"]);
     if let Some(d) = drv_holder.as_ref() { sum.model_requests = d.requests; }
